@@ -166,15 +166,27 @@ def send (p : Peer) (oneway more upgrade : Bool) (s : CS) : Option EKind × CS :
         (some .io, { conn := conn2, call := call1, wire := s.wire })
   | _, _ => (some .methodCalledAlready, { s with call := spent })
 
-/-- result of a decoded reply as `recv` returns it for `MReply = Value` -/
-def replyRes (r : Reply) : Res :=
+/-- the typed decode `serde_json::from_value::<MReply>(parameters)` of the
+    call's reply type: a parameter of the model (`none`: the value does not
+    decode into `MReply`); the result is the typed value rendered as JSON.
+    For `MReply = Value` it is `some`. -/
+abbrev Decoder := Json → Option Json
+
+def decValue : Decoder := some
+
+/-- what `recv` hands to the caller for a decoded reply envelope
+    (lib.rs 1152-1172): an `error` member wins; otherwise the parameters
+    (absent: `{}`) go through the typed decode, whose failure is an error of
+    its own (`SerdeJsonSer(Data)`).  This is computed *after* `continues` and
+    the slots have been settled (see `recv`). -/
+def replyRes (dec : Decoder) (r : Reply) : Res :=
   if r.error.isSome then .err (kindOf r)
-  else match r.parameters with
-    | some p => .ok p
-    | none => .ok (.obj [])
+  else match dec (r.parameters.getD (.obj [])) with
+    | some v => .ok v
+    | none => .err .badJson
 
 /-- `MethodCall::recv` (lib.rs 1128-1173).  `none`: the read blocks. -/
-def recv (s : CS) : Option (Res × CS) :=
+def recv (dec : Decoder) (s : CS) : Option (Res × CS) :=
   if !s.call.reader || !s.call.writer then some (.err .iteratorOldReply, s)
   else match s.wire.queue with
     | [] => if s.wire.closed then some (.err .connectionClosed, s) else none
@@ -185,26 +197,28 @@ def recv (s : CS) : Option (Res × CS) :=
     | .garbage :: q =>
       some (.err .badJson, { s with wire := { s.wire with queue := q } })
     | .reply r :: q =>
+      -- `continues` and the slots are settled right after the envelope is parsed,
+      -- before the payload is looked at: the typed decode cannot keep the stream
       let wire' := { s.wire with queue := q }
       if r.continues = some true then
-        some (replyRes r, { s with call := { s.call with continues := true }, wire := wire' })
+        some (replyRes dec r, { s with call := { s.call with continues := true }, wire := wire' })
       else
-        some (replyRes r,
+        some (replyRes dec r,
               { conn := { reader := s.call.reader, writer := s.call.writer },
                 call := { s.call with continues := false, reader := false, writer := false },
                 wire := wire' })
 
 /-- `MethodCall::call` -/
-def call (p : Peer) (s : CS) : Option (Res × CS) :=
+def call (p : Peer) (dec : Decoder) (s : CS) : Option (Res × CS) :=
   match send p false false false s with
   | (some e, s') => some (.err e, s')
-  | (none, s') => recv s'
+  | (none, s') => recv dec s'
 
 /-- `MethodCall::upgrade` -/
-def upgrade (p : Peer) (s : CS) : Option (Res × CS) :=
+def upgrade (p : Peer) (dec : Decoder) (s : CS) : Option (Res × CS) :=
   match send p false false true s with
   | (some e, s') => some (.err e, s')
-  | (none, s') => recv s'
+  | (none, s') => recv dec s'
 
 /-- `MethodCall::oneway` -/
 def oneway (p : Peer) (s : CS) : Res × CS :=
@@ -219,8 +233,8 @@ def more (p : Peer) (s : CS) : Res × CS :=
   | (none, s') => (.unit, s')
 
 /-- `Iterator::next` -/
-def next (s : CS) : Option (Res × CS) :=
-  if !s.call.continues then some (.none, s) else recv s
+def next (dec : Decoder) (s : CS) : Option (Res × CS) :=
+  if !s.call.continues then some (.none, s) else recv dec s
 
 /-! ### several call objects, several threads -/
 
@@ -282,14 +296,14 @@ def GState.doSend (p : Peer) (g : GState) (t i : Nat) (m : MCall) (oneway more u
     let g' := ((g.put i s').tagNew before i).setProg t okProg
     if okDone then g'.done t .unit else g'
 
-def GState.doRecv (g : GState) (t i : Nat) (m : MCall) (rest : List Op) : Option GState :=
+def GState.doRecv (dec : Decoder) (g : GState) (t i : Nat) (m : MCall) (rest : List Op) : Option GState :=
   let before := g.wire.queue.length
-  match recv (g.cs m) with
+  match recv dec (g.cs m) with
   | none => none
   | some (r, s') => some ((((g.put i s').tagRecv before i).setProg t rest).done t r)
 
 /-- thread `t` performs its next atomic step; `none`: it has finished or it blocks -/
-def stepThread (p : Peer) (g : GState) (t : Nat) : Option GState :=
+def stepThread (p : Peer) (dec : Decoder) (g : GState) (t : Nat) : Option GState :=
   match g.progs[t]? with
   | none => none
   | some [] => none
@@ -304,26 +318,26 @@ def stepThread (p : Peer) (g : GState) (t : Nat) : Option GState :=
       | .more i => some (g.doSend p t i { m with continues := true } false true false rest true rest)
       | .next i =>
         if !m.continues then some ((g.setProg t rest).done t .none)
-        else g.doRecv t i m rest
-      | .recv i => g.doRecv t i m rest
+        else g.doRecv dec t i m rest
+      | .recv i => g.doRecv dec t i m rest
 
 /-- run a schedule (list of thread numbers); a step that is not enabled is skipped -/
-def runSched (p : Peer) (g : GState) : List Nat → GState
+def runSched (p : Peer) (dec : Decoder) (g : GState) : List Nat → GState
   | [] => g
   | t :: ts =>
-    match stepThread p g t with
-    | some g' => runSched p g' ts
-    | none => runSched p g ts
+    match stepThread p dec g t with
+    | some g' => runSched p dec g' ts
+    | none => runSched p dec g ts
 
 /-- one thread runs to the end or until it blocks (`fuel` ≥ 2 × number of operations suffices) -/
-def runSeq (p : Peer) : Nat → GState → GState
+def runSeq (p : Peer) (dec : Decoder) : Nat → GState → GState
   | 0, g => g
   | fuel + 1, g =>
-    match stepThread p g 0 with
-    | some g' => runSeq p fuel g'
+    match stepThread p dec g 0 with
+    | some g' => runSeq p dec fuel g'
     | none => g
 
-def reachable (p : Peer) (g0 g : GState) : Prop := ∃ sched : List Nat, runSched p g0 sched = g
+def reachable (p : Peer) (dec : Decoder) (g0 g : GState) : Prop := ∃ sched : List Nat, runSched p dec g0 sched = g
 
 end Client
 end VV
